@@ -213,7 +213,7 @@ PPCode(r, D, q) ==
   LET j == JOf(D, q) fmax == RPow(IF RLt(RZero, RSub(ROne, r)) THEN RSub(ROne, r) ELSE RZero, j + q)
       cov == CASE q = 0 -> ROne
                [] q = 1 -> RAdd(RMul(R(j + 1), r), ROne)
-               [] q = 2 -> RAdd(RAdd(ROne, RMul(R(j + 2), r)), RMul(RQ(j + 4 * j + 3, 3), RMul(r, r)))
+               [] q = 2 -> RAdd(RAdd(ROne, RMul(R(j + 2), r)), RMul(RQ(j * j + 4 * j + 3, 3), RMul(r, r)))   \* j^2 since the fix: commit (was j + 4j + 3)
                [] q = 3 -> RAdd(RAdd(RAdd(ROne, RMul(R(j + 3), r)), RMul(RQ(6 * j * j + 36 * j + 45, 15), RMul(r, r))),
                                 RMul(RQ(j * j * j + 9 * j * j + 23 * j + 15, 15), RMul(r, RMul(r, r))))
   IN RMul(fmax, cov)
